@@ -543,7 +543,7 @@ def main(tier):
     finally:
         ex.close()
     # ---- part B
-    depth = 3 if quick else 4
+    depth = 3 if quick else 5
     ex = Explorer(C08B(max_keys=2 if quick else 3), variant=variant, deadline=deadline)
     try:
         fix = ex.bfs(depth)
